@@ -7,6 +7,7 @@ mod c05;
 mod c06;
 mod c07;
 mod c08;
+mod c17;
 mod c11;
 mod c13;
 mod c11_live;
@@ -26,6 +27,7 @@ pub fn run(engine: &str, toks: Vec<Tok>) -> Vec<Tok> {
         "c06_encode" => c06::encode(toks),
         "c07_run" => c07::run(toks),
         "c08_run" => c08::run(toks),
+        "c17_run" => c17::run(toks),
         "c11_checksum" => c11::checksum(toks),
         "c11_serialize_echo" => c11::serialize_echo(toks),
         "c11_decode_requests" => c11::decode_requests(toks),
